@@ -17,9 +17,11 @@ import itertools
 import json
 import os
 import random
+import time
 
 from vlib import core
 from checks import pipeline_common as pc
+from checks import pipeline_inputs_part, fileset_part
 
 PKG = {"p": "alpha", "q": "beta", "r": "gamma"}
 LANGLOOP_SITE = "codegen.(*Pipeline).Run/range targetsByLanguage"
@@ -500,6 +502,15 @@ def run(ctx):
             raise core.Inconclusive("clause %s never exercised non-trivially" % k)
     if (timeouts or any(r.get("timeout") for r in ires)) and not ctx.failures:
         raise core.Inconclusive("runs did not return (watchdog): %s" % (timeouts[:5],))
+    # growth of Pipeline.tla beyond the listed clauses (DESIGN Appendix E.4 / E.5): input gating + parameters, file-set algebra
+    parts = {}
+    for pname, mod in (("inputs", pipeline_inputs_part), ("fileset", fileset_part)):
+        t_part = time.time()
+        part = mod.run_part(ctx)
+        for sig, what, rp, key in part["fails"]:
+            ctx.fail(sig, what, rp, key)
+        parts[pname] = dict(part["coverage"], wall_s=round(time.time() - t_part, 1))
+
     failing = sorted(n for n in res if res[n]["err"])
     failing_why = {}
     for n in failing:
@@ -507,9 +518,10 @@ def run(ctx):
     cov = {
         "states": sum(t["distinct"] for t in ctx.tlc_runs),
         "transitions": sum(t["generated"] for t in ctx.tlc_runs),
-        "traces_validated_against_impl": len(records) - len(fails),
-        "evaluations": len(plan.jobs) + len(mjobs) * 3 + sum(len(r["steps"]) for r in ires),
-        "distinct_nontrivial": sum(nontrivial.values()),
+        "traces_validated_against_impl": len(records) - len(fails) + parts["inputs"]["conforming"] + parts["fileset"]["conforming"],
+        "evaluations": len(plan.jobs) + len(mjobs) * 3 + sum(len(r["steps"]) for r in ires) + parts["inputs"]["replayed"] + parts["fileset"]["replayed"],
+        "distinct_nontrivial": sum(nontrivial.values()) + parts["inputs"]["replayed"] + parts["fileset"]["replayed"],
+        "growth_inputs": parts["inputs"], "growth_fileset": parts["fileset"],
         "comparisons_per_clause": counts, "nontrivial_per_clause": nontrivial,
         "real_pipeline_runs": len(plan.jobs), "runs_failing": len(failing), "runs_failing_why": {k: len(v) for k, v in failing_why.items()}, "merge_unions": merged_ok, "merge_conflicts": conflicts,
         "tlc_cases": {k: len(v) for k, v in by_rel.items()}, "language_subsets": len(subsets), "input_sets_for_language_subsets": len(li_sets),
@@ -521,7 +533,7 @@ def run(ctx):
                 "(InputOrderIndependent), package-specific files exist (UnrelatedInputIrrelevant), the two inputs share an object name "
                 "(MergeIsUnionOrConflict), the chain ran without error (InputsNeverMutated)",
         "samples": [describe(n) for n in sorted(plan.meta)[:2]] + [{"merge": mmeta[mjobs[0]["id"]]}],
-        "checker_cmd": "schedrewrite + go build -overlay; tlc Pipeline2MC (requirement level, CASE emission); worker pipe-run / c07-merge / c07-immut; tlc PipelineTrace",
+        "checker_cmd": "schedrewrite + go build -overlay; tlc Pipeline2MC (requirement level, CASE emission); worker pipe-run / c07-merge / c07-immut; tlc PipelineTrace; growth: tlc PipelineInputsMC -> worker inputs-load -> tlc PipelineInputsTrace; tlc PipelineFilesMC -> worker pipe-run -> tlc PipelineFilesTrace",
     }
     if not overlay:
         ctx.assumptions.append("scheduler overlay unavailable (%s): the language loop order is whatever the Go runtime picked" % info["why"])
@@ -564,7 +576,12 @@ def replay(ctx):
     pc.build_with_scheduler(ctx)
     base = ctx.sub("replay")
     clause = r["clause"]
-    if clause in ("LanguageIndependent", "InputOrderIndependent", "UnrelatedInputIrrelevant", "Deterministic"):
+    if clause in ("inputs", "fileset"):
+        verdicts = pipeline_inputs_part.replay_case(ctx, r["case"]) if clause == "inputs" else fileset_part.replay_case(ctx, r["cfg"])
+        for cl, cls, what in verdicts:
+            if "C07/%s/%s/%s" % (clause, cl, cls) == sig.split(" (input not")[0]:
+                ctx.fail(sig, "replayed: " + what, r)
+    elif clause in ("LanguageIndependent", "InputOrderIndependent", "UnrelatedInputIrrelevant", "Deterministic"):
         jobs = []
         for k, x in enumerate(r["runs"]):
             jobs.append(make_job(base, "replay%d" % k, x["inputs"], x["langs"], FLAGSETS[x["flags"]], x["allowed"], x["ndef"], x["sched"]))
